@@ -29,6 +29,7 @@ import sys
 HASHES = {
     # name: (constructor, b_in_bytes (output size), s_in_bytes (input block size))
     "sha256": (hashlib.sha256, 32, 64),
+    "sha224": (hashlib.sha224, 28, 64),  # digest size not a multiple of 8 bytes
     "sha384": (hashlib.sha384, 48, 128),
     "sha512": (hashlib.sha512, 64, 128),
 }
